@@ -22,16 +22,22 @@ Definition obs_eqb (a b : obs) : bool :=
    implementation returned *)
 Inductive case :=
 | C1 (bounds : bool) (m : meth) (n : nat) (tpi : list nat) (tp : list Q) (ix : list idx) (o : obs)
-| C2 (bounds : bool) (n2 n1 : nat) (tpi2 tpi1 : list nat) (T : list (list Q)) (ix : list idx) (o : obs).
+| C2 (bounds : bool) (n2 n1 : nat) (tpi2 tpi1 : list nat) (T : list (list Q)) (ix : list idx) (o : obs)
+(* a whole SubsampledArray in canonical layout with its constructor arguments:
+   stored tie points and their type, the dictionaries in insertion order *)
+| C3 (name : iname) (bounds : bool) (shape : list nat) (ty : sty) (tp : tparr)
+     (tpis : list (nat * list nat)) (params : list (string * list Q)) (pdims : list (string * list nat))
+     (prec : option string) (ix : list idx) (o : obs).
 
 Definition run_case (c : case) : obs :=
   match c with
   | C1 b m n tpi tp ix _ => getitem1 b m n tpi tp ix
   | C2 b n2 n1 tpi2 tpi1 T ix _ => getitem2 b n2 n1 tpi2 tpi1 T ix
+  | C3 nm b sh ty tp tpis ps pd pr ix _ => getitem_sa nm b sh ty tp tpis ps pd pr ix
   end.
 
 Definition observed (c : case) : obs :=
-  match c with C1 _ _ _ _ _ _ o => o | C2 _ _ _ _ _ _ _ o => o end.
+  match c with C1 _ _ _ _ _ _ o => o | C2 _ _ _ _ _ _ _ o => o | C3 _ _ _ _ _ _ _ _ _ _ o => o end.
 
 Definition check_case (c : case) : bool := obs_eqb (run_case c) (observed c).
 
@@ -40,5 +46,15 @@ Definition run_case_old (c : case) : obs :=
   match c with
   | C1 b m n tpi tp ix _ => getitem1_old b m n tpi tp ix
   | C2 b n2 n1 tpi2 tpi1 T ix _ => getitem2_old b n2 n1 tpi2 tpi1 T ix
+  | C3 nm b sh ty tp tpis ps pd pr ix _ => getitem_sa nm b sh ty tp tpis ps pd pr ix
   end.
 Definition check_case_old (c : case) : bool := obs_eqb (run_case_old c) (observed c).
+
+(* the arithmetic as it was before handoff/C16-fix3-1 (difference of tie points
+   formed in the stored type): whole array of a 1-d linear coordinate case *)
+Definition check_case_stored_arith (c : case) : bool :=
+  match c with
+  | C3 ILinear false [n] ty (TP1 tp) [(0, tpi)] _ _ _ _ o =>
+      obs_eqb (ObsArr [n] (take1 (dec1_stored_arith ty tpi (map inj tp)) (seq 0 n) [0])) o
+  | _ => true
+  end.
